@@ -566,7 +566,12 @@ func ruleC19SliceMeter(w *World, r *Report) {
 		st    map[string]*ssa.Store
 	}
 	lits := map[ssa.Value]*lit{}
-	allInstrs(worker, func(i ssa.Instruction) {
+	forAllWorkers := func(fn func(i ssa.Instruction)) {
+		for _, h := range withClosures(add) {
+			allInstrs(h, fn)
+		}
+	}
+	forAllWorkers(func(i ssa.Instruction) {
 		st, ok := i.(*ssa.Store)
 		if !ok {
 			return
